@@ -43,8 +43,17 @@ func NewAux(fd *slip.FuncDoc) *Aux {
 		methods:    map[string]*slip.Method{},
 		docs:       fd,
 		reqCnt:     cnt,
-		defaultKey: string(dk[:len(dk)-2]),
+		defaultKey: defaultKey(dk),
 	}
+}
+
+// defaultKey strips the trailing separator; a generic function without
+// required parameters has an empty key.
+func defaultKey(dk []byte) string {
+	if len(dk) < 2 {
+		return ""
+	}
+	return string(dk[:len(dk)-2])
 }
 
 // Call the the function with the arguments provided.
